@@ -30,9 +30,9 @@ def make_body(case):
     items = list(range(1, nitems + 1))
     def body():
         if wrapper == 'coba':
-            mp = CobaMultiprocessor(TenTimesGen(faults, case.get('exc', 'custom')), n, m)
+            mp = CobaMultiprocessor(TenTimesGen(faults, case.get('exc', 'custom'), case.get('fan', 'one')), n, m)
         else:
-            mp = Multiprocessor(TenTimes(faults, case.get('exc', 'custom')), n, m)
+            mp = Multiprocessor(TenTimes(faults, case.get('exc', 'custom'), case.get('fan', 'one')), n, m)
         outs = []
         g = mp.filter(items)
         try:
@@ -59,7 +59,7 @@ def before():
 
 def feature(case):
     return (f"{case['wrapper']} n{'=1' if case['n']==1 else '>1'} m{'=0' if case['m']==0 else '>0'} "
-            f"{'faults' if case['faults'] else 'nofault'}{'' if case.get('exc', 'custom') == 'custom' else ' raising ' + case['exc']} consumer={'all' if case['consumer']=='all' else 'early'}")
+            f"{'faults' if case['faults'] else 'nofault'}{'' if case.get('exc', 'custom') == 'custom' else ' raising ' + case['exc']}{'' if case.get('fan', 'one') == 'one' else ' outputs-per-item=' + case['fan']} consumer={'all' if case['consumer']=='all' else 'early'}")
 
 
 def judge(case, ex):
@@ -67,32 +67,40 @@ def judge(case, ex):
     bad = []
     items = list(range(1, case['items'] + 1))
     faults = set(case['faults'])
-    expected = collections.Counter(10 * x for x in items if x not in faults)
+    fan = case.get('fan', 'one')
+    expected = collections.Counter()
+    for x in items:
+        if x in faults: continue
+        if fan == 'two': expected.update([10 * x, 10 * x + 1])
+        elif fan == 'skip1' and x == 1: pass
+        elif fan == 'none1' and x == 1: expected.update(['None'])
+        else: expected.update([10 * x])
     if ex.deadlock: return [('deadlock', 'no task enabled while the caller is still waiting')]
     if ex.livelock: return [('non-termination', 'scheduling-point budget exhausted')]
     kind, val = ex.result
     if kind == 'exc':
         return [('harness-body-raised', repr(val))]
     outs, exc = val
-    vals = collections.Counter(v for _, v in outs)
+    vals = collections.Counter(('None' if o is None else o[1]) for o in outs)
     if any(c > 1 for c in vals.values()) or any(expected[v] < c for v, c in vals.items()):
-        bad.append(('duplicate-or-foreign-output', f'outputs {sorted(vals.elements())} expected sub-multiset of {sorted(expected.elements())}'))
+        bad.append(('duplicate-or-foreign-output', f'outputs {sorted(vals.elements(), key=str)} expected sub-multiset of {sorted(expected.elements(), key=str)}'))
     if case['consumer'] == 'all':
         if not faults:
             if exc is not None: bad.append(('unexpected-exception', repr(exc)))
-            elif vals != expected: bad.append(('lost-output', f'outputs {sorted(vals.elements())} expected {sorted(expected.elements())}'))
+            elif vals != expected: bad.append(('lost-output', f'outputs {sorted(vals.elements(), key=str)} expected {sorted(expected.elements(), key=str)}'))
         else:
             reached = any(x in faults for x in items)
             if reached:
-                if exc is None: bad.append(('error-swallowed', f'filter raised for {sorted(faults)} but the call returned normally with {sorted(vals.elements())}'))
+                if exc is None: bad.append(('error-swallowed', f'filter raised for {sorted(faults)} but the call returned normally with {sorted(vals.elements(), key=str)}'))
                 elif case.get('exc', 'custom') == 'custom' and not (isinstance(exc, InjectedError) and exc.item in faults): bad.append(('wrong-exception', repr(exc)))
+                elif case.get('exc') in ('cannot-unpickle', 'huge'): pass      # any error is accepted, the call only has to terminate with one
                 elif case.get('exc', 'custom') != 'custom' and type(exc) is not EXC_KINDS[case['exc']]: bad.append(('wrong-exception', repr(exc)))
     else:
-        if exc is not None and not isinstance(exc, (InjectedError,) + tuple(EXC_KINDS.values())):
+        if exc is not None and not isinstance(exc, (InjectedError,) + tuple(k for k in EXC_KINDS.values() if isinstance(k, type))) and case.get('exc') not in ('cannot-unpickle', 'huge'):
             bad.append(('early-close-raised', repr(exc)))
         want = min(case['consumer'], sum(expected.values()))
         if exc is None and not faults and sum(vals.values()) != want:
-            bad.append(('lost-output', f'asked for {want} outputs before closing, got {sorted(vals.elements())}'))
+            bad.append(('lost-output', f'asked for {want} outputs before closing, got {sorted(vals.elements(), key=str)}'))
     if case['m'] > 0:
         per = collections.Counter(pid for ev, pid, _ in (e for e in ex.log if e[0] == 'handled'))
         if per and max(per.values()) > case['m'] and not (case['n'] == 1 and case['m'] == 0):
@@ -110,7 +118,7 @@ def observation(case, ex):
     if ex.livelock: return 'livelock'
     if kind == 'exc': return 'bodyexc:' + type(val).__name__
     outs, exc = val
-    return json.dumps([sorted(v for _, v in outs), type(exc).__name__ if exc is not None else None])
+    return json.dumps([sorted(str(None if o is None else o[1]) for o in outs), type(exc).__name__ if exc is not None else None])
 
 
 class C08(Check):
@@ -153,10 +161,17 @@ class C08(Check):
         # the filter raises ordinary builtin exceptions (incl. the ones coba's own queue plumbing catches internally)
         for kind in [k for k in EXC_KINDS if k != 'custom']:
             for wrapper, n, m in (('mp', 2, 0), ('mp', 1, 1), ('coba', 2, 0)):
-                if tier == 'quick' and wrapper == 'coba' and kind not in ('ValueError', 'EOFError'): continue
+                if tier == 'quick' and wrapper == 'coba' and kind not in ('ValueError', 'EOFError', 'cannot-unpickle'): continue
                 for x in (1, 2):
                     out.append({'wrapper': wrapper, 'n': n, 'm': m, 'items': 2, 'faults': [x], 'consumer': 'all', 'exc': kind})
-        out.sort(key=lambda c: (c['items'], c['n'], c['m'], len(c['faults']), c['consumer'] != 'all', c['wrapper'], c.get('exc', '')))
+        # filters that give more / fewer than one output per item, or the output None
+        for fan in ('two', 'skip1', 'none1'):
+            for wrapper, n, m in (('mp', 2, 0), ('mp', 1, 1), ('mp', 2, 1), ('coba', 2, 1)):
+                if tier == 'quick' and wrapper == 'coba' and fan != 'two': continue
+                for k in (2, 3):
+                    if tier == 'quick' and k == 3 and (n, m) != (1, 1): continue
+                    out.append({'wrapper': wrapper, 'n': n, 'm': m, 'items': k, 'faults': [], 'consumer': 'all', 'fan': fan})
+        out.sort(key=lambda c: (c['items'], c['n'], c['m'], len(c['faults']), c['consumer'] != 'all', c['wrapper'], c.get('exc', ''), c.get('fan', '')))
         return out
 
     def bound(self, tier, case):
@@ -246,19 +261,21 @@ class C08(Check):
             o = json.loads(line[-1][4:])
             # judged by the same oracle as the explored executions
             ex = sched.Execution()
-            exc = InjectedError(o['exc_item']) if o['exc'] == 'InjectedError' else (None if o['exc'] is None else next((t(o['exc_item']) for t in EXC_KINDS.values() if t.__name__ == o['exc']), RuntimeError(o['exc'])))
-            ex.result = ('ok', ([(p_, v) for p_, v in o['outs']], exc))
-            ex.log = [('handled', p_, x) for p_, x in o['handled']]
+            exc = InjectedError(int(o['exc_item']) if str(o['exc_item']).isdigit() else o['exc_item']) if o['exc'] == 'InjectedError' else (None if o['exc'] is None else next((t(o['exc_item']) for t in EXC_KINDS.values() if t.__name__ == o['exc']), RuntimeError(o['exc'])))
+            ex.result = ('ok', ([None if x is None else (x[0], x[1]) for x in o['outs']], exc))
+            ex.log = [('handled', p_, x) for p_, x in sorted(set(map(tuple, o['handled'])))]
             for mode, what in judge(c, ex):
                 acc.violation(f'Multiprocessor|{mode}|{feature(c)} real-os', what, {'case': c, 'real': True})
-            absobs = json.dumps([sorted(v for _, v in o['outs']), o['exc']])
+            absobs = json.dumps([sorted(str(None if x is None else x[1]) for x in o['outs']), o['exc']])
             acc.count('real_obs_in_explored_set' if absobs in acc.notes.get(json.dumps(c, sort_keys=True), ()) else 'real_obs_outside_explored_set')
             n_ok += 1
         return n_ok
 
     def post(self, acc, tier):
-        confs = [c for c in self.cases(tier) if c['wrapper'] == 'mp' and not (c['n'] == 1 and c['m'] == 0) and c['consumer'] == 'all']
-        pick = confs if tier == 'thorough' else [c for c in confs if c['items'] == 2 and c['n'] == 2 and len(c['faults']) <= 1 and 'exc' not in c][:6] + [c for c in confs if c.get('exc') in ('EOFError', 'ValueError') and c['n'] == 2 and c['faults'] == [1]]
+        # 'huge' exceptions are not replayed on the real OS in the registered runs: the real run hangs (listed finding), which would cost a
+        # 60 s timeout per run; the pipe-capacity model of the simulated layer was confirmed against real spawn once (vf/lib/realmp.py)
+        confs = [c for c in self.cases(tier) if c['wrapper'] == 'mp' and not (c['n'] == 1 and c['m'] == 0) and c['consumer'] == 'all' and c.get('exc') != 'huge']
+        pick = confs if tier == 'thorough' else [c for c in confs if c['items'] == 2 and c['n'] == 2 and len(c['faults']) <= 1 and 'exc' not in c][:6] + [c for c in confs if c.get('exc') in ('EOFError', 'ValueError', 'cannot-unpickle') and c['n'] == 2 and c['faults'] == [1]] + [c for c in confs if c.get('fan') in ('two', 'none1') and (c['n'], c['m'], c['items']) == (2, 0, 2)]
         n_ok = self.real_runs(pick, acc)
         acc.traces += n_ok
         return {'real_os_conformance_runs': n_ok}
